@@ -167,8 +167,9 @@ impl Tracker {
                 self.status = Status::Ready;
                 Some(previous)
             }
-            ScheduleReason::Ready => {
-                debug_assert!(self.status == Status::Paused(PauseReason::Busy));
+            // only a connection paused because its buffer was full waits for the link's Ready; a late
+            // or repeated Ready (e.g. of a previous connection with the same id) changes nothing
+            ScheduleReason::Ready if previous == PauseReason::Busy => {
                 self.status = Status::Ready;
                 Some(previous)
             }
